@@ -7,6 +7,9 @@ use crate::{
 mod config;
 mod region;
 
+#[cfg(feature = "verif-hooks")]
+pub mod verif;
+
 pub use config::{CancelToken, ThreadPool};
 pub use region::{ImageSize, RegionSize, VoxelSize};
 
